@@ -63,31 +63,50 @@ def Cfg.maxGenSize (cfg : Cfg) : Nat := cfg.sizeLimit / 20
 structure St where
   heap : List Entry
   ncaches : Nat
-  cur : Nat → Nat
-  released : Nat → Bool
+  curL : List Nat
+  relL : List Bool
   ngens : Nat
-  gsize : Nat → Int
-  stale : Nat → Bool
+  gsizeL : List Int
+  staleL : List Bool
   glist : List Nat
   lastGen : Nat
   buckets : List Nat
-  pc : Nat → Pc
+  pcL : List Pc
   /-- buckets the running `Cleaner.Cleanup` still has to visit (`none`: no pass in progress) -/
   todo : Option (List Nat)
   /-- ghost: (cache, key, value) of every loader run that returned a value -/
   produced : List (Nat × Nat × Nat)
 
+/-- finite maps `Nat → α` with a default, stored as lists (so that the compiled driver does not build closure
+chains): `mget d l i` reads, `mset d l i a` writes (padding with the default). -/
+def mget {α} (d : α) (l : List α) (i : Nat) : α := l.getD i d
+
+def mset {α} (d : α) : List α → Nat → α → List α
+  | [], 0, a => [a]
+  | [], i + 1, a => d :: mset d [] i a
+  | _ :: xs, 0, a => a :: xs
+  | x :: xs, i + 1, a => x :: mset d xs i a
+
+/-- `c.currentGeneration` of cache `c` -/
+def St.cur (s : St) (c : Nat) : Nat := mget 0 s.curL c
+/-- `c.released` -/
+def St.released (s : St) (c : Nat) : Bool := mget false s.relL c
+/-- `g.size` -/
+def St.gsize (s : St) (g : Nat) : Int := mget 0 s.gsizeL g
+/-- `g.stale` -/
+def St.stale (s : St) (g : Nat) : Bool := mget false s.staleL g
+/-- program counter of thread `t` -/
+def St.pc (s : St) (t : Nat) : Pc := mget .idle s.pcL t
+
 /-- `NewCleaner` -/
 def init : St :=
-  { heap := [], ncaches := 0, cur := fun _ => 0, released := fun _ => false, ngens := 1, gsize := fun _ => 0,
-    stale := fun _ => false, glist := [0], lastGen := 0, buckets := [], pc := fun _ => .idle, todo := none,
-    produced := [] }
+  { heap := [], ncaches := 0, curL := [], relL := [], ngens := 1, gsizeL := [], staleL := [], glist := [0],
+    lastGen := 0, buckets := [], pcL := [], todo := none, produced := [] }
 
-def upd {α} (f : Nat → α) (i : Nat) (a : α) : Nat → α := fun j => if j = i then a else f j
+/-- `g.size.Add(d)` -/
+def addG (l : List Int) (g : Nat) (d : Int) : List Int := mset 0 l g (mget 0 l g + d)
 
-/-- `@[inline]`: the new value is computed once, when the counter is updated (the compiled driver would otherwise
-re-evaluate `f g` on every later read) -/
-@[inline] def addG (f : Nat → Int) (g : Nat) (d : Int) : Nat → Int := upd f g (f g + d)
+def setPc (s : St) (t : Nat) (p : Pc) : St := { s with pcL := mset .idle s.pcL t p }
 
 inductive Out
   | none
@@ -128,7 +147,7 @@ def updGen (s : St) (eid ng : Nat) : St :=
   | none => s
   | some e =>
     if ng = e.gen then s
-    else { s with gsize := addG (addG s.gsize e.gen (-(e.size : Int))) ng e.size,
+    else { s with gsizeL := addG (addG s.gsizeL e.gen (-(e.size : Int))) ng e.size,
                   heap := s.heap.set eid { e with gen := ng } }
 
 /-- the critical section(s) of `getOrCreate` up to the point where the caller returns, blocks or loads -/
@@ -139,11 +158,11 @@ def acquire (s : St) (t c k : Nat) : St × Out :=
     | none => (s, .none)
     | some e =>
       let s1 := updGen s eid (s.cur c)
-      if e.st = .valid then ({ s1 with pc := upd s1.pc t .idle }, .value e.val)
-      else ({ s1 with pc := upd s1.pc t (.waiting c k eid) }, .waiting)
+      if e.st = .valid then (setPc s1 t .idle, .value e.val)
+      else (setPc s1 t (.waiting c k eid), .waiting)
   | none =>
-    ({ s with heap := s.heap ++ [⟨c, k, .loading, 0, s.cur c, 0, false, true⟩],
-              pc := upd s.pc t (.loading c k s.heap.length) }, .loading)
+    (setPc { s with heap := s.heap ++ [⟨c, k, .loading, 0, s.cur c, 0, false, true⟩] } t (.loading c k s.heap.length),
+     .loading)
 
 /-- `delete(c.payload, key)` -/
 def unmap (heap : List Entry) (c k : Nat) : List Entry :=
@@ -155,26 +174,25 @@ def save (cfg : Cfg) (s : St) (t c k eid v sz : Nat) : St × Out :=
   | none => (s, .none)
   | some e =>
     let size := if e.deleted then 0 else cfg.entrySize + sz
-    ({ s with heap := s.heap.set eid { e with val := v, size := size, st := .valid },
-              gsize := addG s.gsize e.gen size,
-              pc := upd s.pc t .idle,
-              produced := (c, k, v) :: s.produced }, .value v)
+    (setPc { s with heap := s.heap.set eid { e with val := v, size := size, st := .valid },
+                    gsizeL := addG s.gsizeL e.gen size,
+                    produced := (c, k, v) :: s.produced } t .idle, .value v)
 
 /-- `recover` (after a loader error, or from `handlePanic`) -/
 def recover (s : St) (t c k eid : Nat) : St :=
   match (unmap s.heap c k)[eid]? with
   | none => s
-  | some e => { s with heap := (unmap s.heap c k).set eid { e with st := .abandoned }, pc := upd s.pc t .idle }
+  | some e => setPc { s with heap := (unmap s.heap c k).set eid { e with st := .abandoned } } t .idle
 
-def relGens (c : Nat) : List Entry → (Nat → Int) → (Nat → Int)
+def relGens (c : Nat) : List Entry → List Int → List Int
   | [], g => g
   | e :: es, g => relGens c es (if e.cache = c ∧ e.inMap then addG g e.gen (-(e.size : Int)) else g)
 
 /-- `Cache.Release` -/
 def release (s : St) (c : Nat) : St :=
-  { s with gsize := relGens c s.heap s.gsize,
+  { s with gsizeL := relGens c s.heap s.gsizeL,
            heap := s.heap.map (fun e => if e.cache = c then { e with inMap := false } else e),
-           released := upd s.released c true }
+           relL := mset false s.relL c true }
 
 def evict (stale : Nat → Bool) (c : Nat) (e : Entry) : Bool := e.cache == c && (e.inMap && stale e.gen)
 
@@ -191,7 +209,7 @@ def getSize (s : St) : Int := (s.glist.map s.gsize).sum
 /-- `Cleaner.rotate(NewGeneration())` -/
 def doRotate (s : St) : St :=
   { s with ngens := s.ngens + 1, lastGen := s.ngens,
-           cur := fun c => if c ∈ s.buckets then s.ngens else s.cur c,
+           curL := s.buckets.foldl (fun m b => mset 0 m b s.ngens) s.curL,
            glist := s.glist ++ [s.ngens] }
 
 /-- `Cleaner.Rotate` -/
@@ -200,26 +218,26 @@ def rotate (cfg : Cfg) (s : St) : St × Out :=
   else (doRotate s, .rotated true (s.gsize s.lastGen))
 
 structure MarkRes where
-  stale : Nat → Bool
+  stale : List Bool
   glist : List Nat
   bytes : Int
   n : Nat
 
 /-- first loop of `markStale`: `for bytes < sizeToClean && len(c.generations) > 1` -/
-def markLoop (gsize : Nat → Int) (target : Int) : (Nat → Bool) → List Nat → Int → Nat → MarkRes
+def markLoop (gsize : Nat → Int) (target : Int) : List Bool → List Nat → Int → Nat → MarkRes
   | stale, g :: g2 :: rest, bytes, n =>
-    if bytes < target then markLoop gsize target (upd stale g true) (g2 :: rest) (bytes + gsize g) (n + 1)
+    if bytes < target then markLoop gsize target (mset false stale g true) (g2 :: rest) (bytes + gsize g) (n + 1)
     else ⟨stale, g :: g2 :: rest, bytes, n⟩
   | stale, l, bytes, n => ⟨stale, l, bytes, n⟩
 
 /-- `Cleaner.markStale` -/
 def markStale (s : St) (target : Int) : St × Nat :=
-  let r := markLoop s.gsize target s.stale s.glist 0 0
-  let s1 := { s with stale := r.stale, glist := r.glist }
+  let r := markLoop s.gsize target s.staleL s.glist 0 0
+  let s1 := { s with staleL := r.stale, glist := r.glist }
   if r.bytes < target then
     let s2 := doRotate s1
     match s2.glist with
-    | g :: rest => ({ s2 with stale := upd s2.stale g true, glist := rest }, r.n + 1)
+    | g :: rest => ({ s2 with staleL := mset false s2.staleL g true, glist := rest }, r.n + 1)
     | [] => (s2, r.n)
   else (s1, r.n)
 
@@ -250,8 +268,8 @@ def releaseBuckets (rel : Nat → Bool) (bs : List Nat) : List Nat := bs.filter 
 
 /-- `Cleaner.AddBucket` from `NewCache` -/
 def newCache (s : St) : St :=
-  { s with ncaches := s.ncaches + 1, cur := upd s.cur s.ncaches s.lastGen, released := upd s.released s.ncaches false,
-           buckets := s.buckets ++ [s.ncaches] }
+  { s with ncaches := s.ncaches + 1, curL := mset 0 s.curL s.ncaches s.lastGen,
+           relL := mset false s.relL s.ncaches false, buckets := s.buckets ++ [s.ncaches] }
 
 /-! ## the transition function -/
 
@@ -265,7 +283,7 @@ def step (cfg : Cfg) (s : St) : Label → Option (St × Out)
       match s.heap[eid]? with
       | some e =>
         match e.st with
-        | .valid => some ({ s with pc := upd s.pc t .idle }, .value e.val)
+        | .valid => some (setPc s t .idle, .value e.val)
         | .abandoned => if s.released c = false then some (acquire s t c k) else none
         | .loading => none
       | none => none
